@@ -73,6 +73,15 @@ func runC11(c *Ctx, n, t, D, V int, kind string, seed uint64) {
 		mu.Lock()
 		resultEvents[fmt.Sprintf("%d/%s", nd.Idx, req.Type)] = string(res.Event)
 		mu.Unlock()
+		// the victim's operator reads the same responses operation a second time on the running machine
+		// (a second scan of the same file): the verdict on the deal must not change
+		if nd.Idx == V && string(req.Type) == OpResponses && len(kind) > 4 && kind[:4] == "deal" && string(res.Event) == EvResponseErr {
+			if res2, err := w.ColdResult(nd, req, false); err == nil {
+				mu.Lock()
+				resultEvents["second-reading"] = string(res2.Event)
+				mu.Unlock()
+			}
+		}
 		if nd.Idx != D {
 			return res
 		}
@@ -222,6 +231,12 @@ func runC11(c *Ctx, n, t, D, V int, kind string, seed uint64) {
 	if len(kind) > 4 && kind[:4] == "deal" {
 		if ev := resultEvents[fmt.Sprintf("%d/%s", V, OpResponses)]; ev != EvResponseErr {
 			c.Violate("C11/victim-did-not-report-an-error", fmt.Sprintf("victim %d answered the responses step with %q after %s", V, ev, kind), wit)
+		}
+	}
+	if ev, ok := resultEvents["second-reading"]; ok {
+		c.Add("responses_operations_read_a_second_time", 1)
+		if ev != EvResponseErr {
+			c.Violate("C11/victim-approves-the-deal-on-second-reading", fmt.Sprintf("victim %d refused the responses step after %s, but reading the same operation again on the running machine yields %q", V, kind, ev), wit)
 		}
 	}
 	for _, nd := range w.Nodes {
